@@ -29,6 +29,7 @@ from vf.env.c06_env import (LockTable, MemCF, MemDevice, Net, EnvFailure, conc, 
                             MAX_READ_REPLY_DATA)
 from cflib.crazyflie.mem import Memory, MemoryElement
 from cflib.crazyflie.mem.memory_tester import MemoryTester
+from cflib.crazyflie.mem.deck_memory import DeckMemoryManager, DeckMemory
 from cflib.crtp.crtpstack import CRTPPacket
 
 FUNCTIONS = ['cflib.crazyflie.mem:Memory.read', 'cflib.crazyflie.mem:Memory.write', 'cflib.crazyflie.mem:Memory._new_packet_cb',
@@ -179,7 +180,7 @@ class World:
                     self.sym.goal('answered-during-send')
                     self.pump()
                 self.cf.link.send_packet = send_and_answer
-            self.el = MemoryElement(id=mem_id, type=MemoryElement.TYPE_APP, size=W, mem_handler=self.mem)
+            self.el = self.make_element(mem_id, W)
         except BaseException:
             self.undo()
             raise
@@ -187,6 +188,9 @@ class World:
         self.limit = limit
         self.dropped = False
         self.hook()
+
+    def make_element(self, mem_id, W):
+        return MemoryElement(id=mem_id, type=MemoryElement.TYPE_APP, size=W, mem_handler=self.mem)
 
     def close(self):
         self.undo()
@@ -715,6 +719,152 @@ def h_tester(sym):
         undo()
 
 
+# ------------------------------------------------------------------------------------------------ deck memory layer
+DECK_BASE = 0x130          # the deck's window inside the manager's memory (right behind the 257-byte info section)
+DECK_W = 48
+
+
+class DeckWorld(World):
+    """World whose element is a DeckMemoryManager wired as Memory.refresh wires it; one deck (read+write, started) whose
+    memory is the window [DECK_BASE, DECK_BASE+DECK_W) of the manager's memory.  Deck-level requests are registered with the
+    world, so the memory-level oracle (exact bytes, one notification) applies to them too."""
+    def __init__(self, sym, faults=None):
+        World.__init__(self, sym, DECK_BASE + DECK_W, nsym=0, faults=faults, mem_id=3, base=0)
+        img = self.dev.image(self.mem_id)
+        info = [DeckMemoryManager.SUPPORTED_VERSION] + [0] * (DeckMemoryManager.SIZE_OF_INFO_SECTION - 1)
+        rec = struct.pack('<BBLLL18s', DeckMemory.MASK_IS_VALID | DeckMemory.MASK_IS_STARTED | DeckMemory.MASK_SUPPORTS_READ |
+                          DeckMemory.MASK_SUPPORTS_WRITE, 0, 0, 0, DECK_BASE, b'bcDeck')
+        slot = 2
+        at = 1 + slot * DeckMemoryManager.SIZE_OF_DECK_MEM_INFO
+        info[at:at + len(rec)] = list(rec)
+        img[0:len(info)] = info
+        self.init = list(img)
+        self.slot = slot
+        self.deck = None
+        self.deck_events = []        # (request, 'ok'|'failed', payload) from the deck-level callbacks
+
+    def make_element(self, mem_id, W):
+        m = self.mem
+        el = DeckMemoryManager(id=mem_id, type=MemoryElement.TYPE_DECK_MEMORY, size=W, mem_handler=m)
+        self._wire = lambda: (m.mem_read_cb.add_callback(el._new_data), m.mem_read_failed_cb.add_callback(el._new_data_failed),
+                              m.mem_write_cb.add_callback(el._write_done), m.mem_write_failed_cb.add_callback(el._write_failed))
+        self._wire()
+        return el
+
+    def query(self, with_failed_cb):
+        n = DeckMemoryManager.SIZE_OF_INFO_SECTION
+        r = Req('read', self.el, 0, 0, n)
+        r.deck = 'query'
+        self.reqs.append(r)
+        self.dev.hint(0)
+        kw = {'query_failed_cb': (lambda *a: self.deck_events.append((r, 'failed', a)))} if with_failed_cb else {}
+        r.has_failed_cb = with_failed_cb
+        self.el.query_decks(lambda decks: self.deck_events.append((r, 'ok', decks)), **kw)
+        return r
+
+    def deck_read(self, off, length, with_failed_cb):
+        r = Req('read', self.el, DECK_BASE + off, DECK_BASE + off, length)
+        r.deck = 'read'
+        r.has_failed_cb = with_failed_cb
+        self.reqs.append(r)
+        self.dev.hint(DECK_BASE + off)
+        kw = {'read_failed_cb': (lambda *a: self.deck_events.append((r, 'failed', a)))} if with_failed_cb else {}
+        self.deck.read(off, length, lambda addr, data: self.deck_events.append((r, 'ok', (addr, data))), **kw)
+        return r
+
+    def deck_write(self, off, data, with_failed_cb):
+        data = list(data)
+        r = Req('write', self.el, DECK_BASE + off, DECK_BASE + off, len(data), data)
+        r.deck = 'write'
+        r.has_failed_cb = with_failed_cb
+        self.reqs.append(r)
+        self.dev.hint(DECK_BASE + off)
+        kw = {'write_failed_cb': (lambda *a: self.deck_events.append((r, 'failed', a)))} if with_failed_cb else {}
+        self.deck.write(off, data, lambda addr: self.deck_events.append((r, 'ok', (addr,))), **kw)
+        return r
+
+    def deck_settle(self):
+        """Memory-level settle, then the deck layer: one deck-level notification per request that has a callback for the
+        outcome, with the right payload."""
+        self.settle()
+        for r in self.reqs:
+            if not hasattr(r, 'deck'):
+                continue
+            ev = [e for e in self.deck_events if e[0] is r]
+            if r.state == 'ok':
+                assert [e[1] for e in ev] == ['ok'], f'deck {r.deck}: {[e[1] for e in ev]} instead of one success notification'
+                if r.deck == 'read':
+                    addr, data = ev[0][2]
+                    assert addr == r.off - DECK_BASE and list(data) == r.got, 'deck read delivered other bytes/another address'
+                if r.deck == 'query':
+                    decks = ev[0][2]
+                    assert list(decks.keys()) == [self.slot] and decks[self.slot].name == 'bcDeck' and \
+                        decks[self.slot]._base_address == DECK_BASE and decks[self.slot].supports_read and \
+                        decks[self.slot].supports_write and decks[self.slot].is_started
+            else:
+                want = ['failed'] if r.has_failed_cb else []
+                assert [e[1] for e in ev] == want, \
+                    f'deck {r.deck} failed at memory level: deck-level notifications {[e[1] for e in ev]}, expected {want}'
+
+    def drop_link(self):
+        World.drop_link(self)
+        self._wire()
+
+
+def h_deck(sym):
+    """DeckMemoryManager / DeckMemory over the real Memory: query, then a deck read and a deck write, each with or without its
+    optional failure callback (solver-chosen), under an error status / duplicated replies / link drop at solver-chosen
+    points; afterwards the same operations are served again (no 'ongoing' record left behind)."""
+    f = _faults(sym, sym.B['max_requests'])
+    w = DeckWorld(sym, faults=f)
+    phase = sym.B['faults_in']          # 'query' | 'transfers'
+    q_cb = sym.bool('query_has_failed_cb')
+    if phase == 'query':
+        r_cb, w_cb, L = True, True, 1
+    else:
+        r_cb, w_cb = sym.bool('read_has_failed_cb'), sym.bool('write_has_failed_cb')
+        L = [1, 21][sym.choice('read_len_idx', 2)]
+    sym.apply_known()
+
+    def body(w):
+        f.on = phase == 'query'
+        q = w.query(True if q_cb else False)
+        w.deck_settle()
+        if w.dropped:
+            sym.goal('dropped-during-query')
+        f.on = phase == 'transfers'
+        if q.state != 'ok':
+            sym.goal('query-failed')
+            q = w.query(True)                 # must not be refused as 'Query ongoing'
+            w.deck_settle()
+            assert q.state == 'ok'
+        w.deck = w.el.deck_memories[w.slot]
+        r = w.deck_read(2, L, True if r_cb else False)
+        w.deck_settle()
+        if r.state != 'ok':
+            sym.goal('read-failed')
+        d = [data_pattern(1, j) for j in range(26)]
+        wr = w.deck_write(5, d, True if w_cb else False)
+        w.deck_settle()
+        if wr.state != 'ok':
+            sym.goal('write-failed')
+        f.on = False
+        if w.dropped:
+            q = w.query(True)
+            w.deck_settle()
+            w.deck = w.el.deck_memories[w.slot]
+        # follow-up: the deck is still served
+        r2 = w.deck_read(0, 30, True)
+        w.deck_settle()
+        assert r2.state == 'ok'
+        w2 = w.deck_write(1, [data_pattern(2, j) for j in range(3)], True)
+        w.deck_settle()
+        assert w2.state == 'ok'
+        assert not w.table.held() and not w.table.deadlocks
+        sym.goal('deck-served-afterwards')
+    run(w, body)
+
+
 _F = dict(dup=True, late=True, err=True, drop=True, follow_len=2)
 _DUP = dict(dup=True, late=True, follow_len=2)
 _ERR = dict(err=True, drop=True, follow_len=2)
@@ -754,6 +904,15 @@ HARNESSES = [
             goals=('long-done',)),
     Harness('edges', h_edges, quick=dict(lengths=[1, 26]), thorough=dict(lengths=[1, 20, 26, 51]), timeout=(200, 600),
             goals=('address-zero', 'end-of-address-space')),
+    Harness('deck[faults in query]', h_deck, quick=dict(max_requests=14, err=True, drop=True, faults_in='query'),
+            thorough=dict(max_requests=28, err=True, drop=True, dup=True, faults_in='query'),
+            timeout=(600, 1800), goals=('query-failed', 'dropped-during-query', 'deck-served-afterwards', 'error-status'),
+            note='deck memory layer (deck_memory.py) on the real Memory: the 13-chunk info-section query under an error status / '
+                 'link drop at every reply, failure callback present or absent'),
+    Harness('deck[faults in transfers]', h_deck, quick=dict(max_requests=8, err=True, drop=True, faults_in='transfers'),
+            thorough=dict(max_requests=16, err=True, drop=True, dup=True, faults_in='transfers'),
+            timeout=(600, 1800), goals=('read-failed', 'write-failed', 'deck-served-afterwards', 'error-status'),
+            note='deck read and deck write under an error status / link drop at every reply, optional failure callbacks present or absent'),
     Harness('tester', h_tester, quick=dict(maxlen=21), thorough=dict(maxlen=30), timeout=(300, 1500),
             goals=('intact', 'corruption-detected')),
 ]
